@@ -14,11 +14,12 @@ EXTENDS Inherit, Json, IOUtils
 Traces == JsonDeserialize(IOEnv.TRACE_FILE)
 VARIABLES tr, verdict
 tvars == <<vars, tr, verdict>>
-TMaxN == [dispatch |-> 0, attrs |-> 0, blocks |-> 0, args |-> 0, dyn |-> 0]      \* (the MC enumeration is not used here)
+TMaxN == [dispatch |-> 0, attrs |-> 0, blocks |-> 0, args |-> 0, dyn |-> 0, entry |-> 0]      \* (the MC enumeration is not used here)
 TraceTplImpl(t, i) == Traces[t].cfg.tpl[i]
 TInit == \E t \in 1..Len(Traces) :
            /\ tr = t /\ verdict = "run"
-           /\ InitWith([fam |-> "trace", id |-> t, N |-> Traces[t].cfg.N, sw |-> Traces[t].cfg.sw, pa |-> Traces[t].cfg.pa])
+           /\ InitWith([fam |-> "trace", id |-> t, N |-> Traces[t].cfg.N, top |-> Traces[t].cfg.top, entry |-> Traces[t].cfg.entry,
+                        sw |-> Traces[t].cfg.sw, pa |-> Traces[t].cfg.pa])
 Obs == Traces[tr].out
 MinLen == IF Len(out) < Len(Obs) THEN Len(out) ELSE Len(Obs)
 Diffs == {k \in 1..MinLen : out[k] # Obs[k]}
